@@ -20,7 +20,7 @@ for d in sorted(glob.glob(os.path.join(VERIF, "seeded/*/"))):
     status = m.get("expected", "?")
     if m.get("status_note"):
         status += " — " + m["status_note"]
-    rows.append((name, m["property"], m.get("summary", m.get("needs_to_manifest", ""))[:160].replace("|", "/").replace("\n", " "), status, rules or "—"))
+    rows.append((name, m["property"], (m.get("summary", "") + " — needs: " + m.get("needs_to_manifest", ""))[:330].replace("|", "/").replace("\n", " "), status, rules or "—"))
 
 hdr = "| seed | property | change (what it needs to manifest) | verdict of the checks | rules that fired |\n|---|---|---|---|---|\n"
 table = hdr + "".join(f"| {a} | {b} | {c} | {d} | {e} |\n" for a, b, c, d, e in rows)
